@@ -462,3 +462,14 @@ def m_split_last_opaque(ex, a, callee, canon):
     if ex.decide(n == 0):
         return NONE()
     return some(Struct("tuple", [Ptr([Int(ex.fresh("last_byte", z3.BitVecSort(8)), "u8")], 0), Ptr([fresh_bytes(ex, "init", n - 1)], 0)]))
+
+
+
+@model(r"^core::slice::<impl \[u8\]>::split_at$")
+def m_split_at_opaque(ex, a, callee, canon):
+    s = ex.bytes_of(a[0])
+    n = ex.seq_len(s)
+    mid = a[1].t
+    if not ex.decide(z3.ULE(mid, n)):
+        raise PathPanic("slice::split_at: mid > len")
+    return Struct("tuple", [Ptr([fresh_bytes(ex, "split_l", mid)], 0), Ptr([fresh_bytes(ex, "split_r", n - mid)], 0)])
